@@ -43,7 +43,7 @@ MENUS = (
 
 
 def gen_cfg(rng, prop, tier):
-    cfg = struct.gen_cfg(rng, "C02", tier)
+    cfg = struct.gen_cfg(rng, "C02", tier, allow_big=False)
     cfg["prop"] = "C19"
     menu = rng.choice(MENUS)
     cfg["menu"] = list(menu)
